@@ -8,6 +8,7 @@
 #include <gmssl/x509_req.h>
 #include <gmssl/asn1.h>
 #include <gmssl/pem.h>
+#include <gmssl/tls.h>
 #include "vh.h"
 #include "venv.h"
 #include "der.h"
@@ -106,6 +107,12 @@ static void blk_points(void) {
 		/* ECDH peer share */
 		{ SM2_KEY dk; sm2_z256_t d; sm2_z256_from_bytes(d, GOODD); sm2_key_set_private_key(&dk, d); uint8_t o[65], out[64]; o[0] = 4; memcpy(o + 1, VAL[vi], 64); r = sm2_ecdh(&dk, o, 65, out); uint8_t e[64]; int er = sr_ecdh(GOODD, VAL[vi], e); vh_eval(vh_mix(vi + 7301));
 			if ((r == 1) != (er == 1) || (r == 1 && memcmp(out, e, 64))) { char key[128]; snprintf(key, sizeof key, "C12:sm2_ecdh:%s:%s", r == 1 ? "accepts" : "rejects-valid", VNAME[vi]); vh_viol(key, "\"peer\":\"%s\"", vh_hex(VAL[vi], 64)); } }
+		/* TLS key-exchange messages and key shares: the value in the place of the peer's ephemeral point */
+		{ SM2_Z256_POINT G0; sm2_z256_point_from_bytes(&G0, GOOD); static uint8_t rec[600]; size_t rl = 0; uint8_t sig[72]; memset(sig, 0x30, sizeof sig); SM2_Z256_POINT Q; int curve; const uint8_t *sg; size_t sgl;
+			tls_record_set_protocol(rec, TLS_protocol_tls12); if (tls_record_set_handshake_server_key_exchange_ecdhe(rec, &rl, TLS_curve_sm2p256v1, &G0, sig, 70) != 1 || !subst(rec, rl, VAL[vi])) vh_harness_error("ske"); r = tls_record_get_handshake_server_key_exchange_ecdhe(rec, &curve, &Q, &sg, &sgl); if (r == 1 && !sm2_z256_point_is_at_infinity(&Q)) sm2_z256_point_to_bytes(&Q, b); else memset(b, 0, 64); verdict("tls_server_key_exchange_ecdhe", vi, r, r == 1 ? b : NULL);
+			rl = 0; tls_record_set_protocol(rec, TLS_protocol_tls12); if (tls_record_set_handshake_client_key_exchange_ecdhe(rec, &rl, &G0) != 1 || !subst(rec, rl, VAL[vi])) vh_harness_error("cke"); r = tls_record_get_handshake_client_key_exchange_ecdhe(rec, &Q); if (r == 1 && !sm2_z256_point_is_at_infinity(&Q)) sm2_z256_point_to_bytes(&Q, b); else memset(b, 0, 64); verdict("tls_client_key_exchange_ecdhe", vi, r, r == 1 ? b : NULL);
+			uint8_t ext[200], *ep = ext; size_t el = 0; if (tls13_server_key_share_ext_to_bytes(&G0, &ep, &el) != 1 || !subst(ext, el, VAL[vi])) vh_harness_error("sks"); r = tls13_process_server_key_share(ext + 4, el - 4, &Q); if (r == 1 && !sm2_z256_point_is_at_infinity(&Q)) sm2_z256_point_to_bytes(&Q, b); else memset(b, 0, 64); verdict("tls13_server_key_share", vi, r, r == 1 ? b : NULL);
+			ep = ext; el = 0; if (tls13_client_key_share_ext_to_bytes(&G0, &ep, &el) != 1 || !subst(ext, el, VAL[vi])) vh_harness_error("cks"); SM2_KEY sk; sm2_z256_t d; sm2_z256_from_bytes(d, GOODD); sm2_key_set_private_key(&sk, d); uint8_t ob[200], *op = ob; size_t ol = 0; r = tls13_process_client_key_share(ext + 4, el - 4, &sk, &Q, &op, &ol); if (r == 1 && !sm2_z256_point_is_at_infinity(&Q)) sm2_z256_point_to_bytes(&Q, b); else memset(b, 0, 64); verdict("tls13_client_key_share", vi, r, r == 1 ? b : NULL); }
 		vh_sample("{\"block\":\"sm2-point-containers\",\"value\":\"%s\",\"xy\":\"%s\",\"on_curve\":%d}", VNAME[vi], vh_hex(VAL[vi], 64), VVALID[vi]);
 	}
 }
